@@ -107,7 +107,38 @@ func checkC04(r *Run) propMeta {
 							continue // typed tokens: R2
 						}
 					}
-					if reason, listed := r.InTableAt(rawTbl, "c04_raw_identifier_writes", construct, finfo, fd, "raw-write:"+namedName(tv.Type), positionKey(finfo, fd, a)); listed {
+					// what is written, by exported vocabulary; a helper that writes for several callers is exempt only if
+					// what it writes is exempt at each of them
+					posKeys := positionKeys(fp, fd, a)
+					typeKey := positionTypeKey(finfo, fd, a)
+					if typeKey != "" {
+						// an exemption stated for the declaring type holds wherever a value of the type is held
+						if reason, ok := r.InTable(rawTbl, "c04_raw_identifier_writes", typeKey); ok {
+							r.Pass("C04-R1-raw-write", construct, a.Pos(), "table: %s", reason)
+							continue
+						}
+					}
+					if len(posKeys) > 1 {
+						unlisted := ""
+						for _, k := range posKeys {
+							if _, ok := r.InTable(rawTbl, "c04_raw_identifier_writes", k); !ok && unlisted == "" {
+								unlisted = k
+							}
+						}
+						if unlisted == "" {
+							reason, _ := r.InTable(rawTbl, "c04_raw_identifier_writes", posKeys[0])
+							r.Pass("C04-R1-raw-write", construct, a.Pos(), "table (every caller): %s", reason)
+							continue
+						}
+						raw++
+						r.Fail("C04-R1-raw-write", construct, a.Pos(), "%s writes a runtime string raw for several callers, and for one of them (%s) nothing says the value is a program constant: a name that is not a plain identifier is then read as SQL (the other positions are exempt in the table; this one is written through the node formatter elsewhere)", funcDeclName(fd), strings.TrimPrefix(unlisted, "position:"))
+						continue
+					}
+					sem := ""
+					if len(posKeys) == 1 {
+						sem = posKeys[0]
+					}
+					if reason, listed := r.InTableAt(rawTbl, "c04_raw_identifier_writes", construct, finfo, fd, "raw-write:"+namedName(tv.Type), sem); listed {
 						r.Pass("C04-R1-raw-write", construct, a.Pos(), "table: %s", reason)
 						continue
 					}
